@@ -2,6 +2,7 @@
 #define VH_MAIN
 #include "common.hpp"
 #include <fstream>
+#include <elfio/elfio_dump.hpp>
 using namespace ELFIO;
 using namespace vh;
 
@@ -148,6 +149,32 @@ static void run_case( const std::vector<Toks>& ops, FILE* out )
             string_section_accessor a( s );
             const char*             p = a.get_string( (Elf_Word)num( t[2] ) );
             fprintf( out, "str=%s\n", p ? hex( std::string( p ) ).c_str() : "null" );
+        }
+        else if ( op == "validate" ) {
+            std::string        e = c.elf->validate();
+            std::istringstream is( e );
+            std::string        ln, conf;
+            int                ov = 0;
+            while ( std::getline( is, ln ) ) {
+                if ( ln.rfind( "Sections ", 0 ) == 0 )
+                    ++ov;
+                else if ( ln.rfind( "Virtual address of segment ", 0 ) == 0 )
+                    conf += ( conf.empty() ? "" : "," ) + std::to_string( atoi( ln.c_str() + 27 ) );
+            }
+            fprintf( out, "validate overlaps=%d conflicts=%s\n", ov, conf.empty() ? "-" : conf.c_str() );
+        }
+        else if ( op == "dump" ) {
+            std::ostringstream os;
+            dump::header( os, *c.elf );
+            dump::section_headers( os, *c.elf );
+            dump::segment_headers( os, *c.elf );
+            dump::symbol_tables( os, *c.elf );
+            dump::notes( os, *c.elf );
+            dump::modinfo( os, *c.elf );
+            dump::dynamic_tags( os, *c.elf );
+            dump::section_datas( os, *c.elf );
+            dump::segment_datas( os, *c.elf );
+            fprintf( out, "dump=ok\n" );
         }
         else
             fprintf( out, "bad-op\n" );
